@@ -11,9 +11,9 @@
    checked by correspondence (pretty-printing generated ASTs under all spellings/layouts and comparing the parser's
    ASTs and the verdicts; tools/gv/props/c14.py). *)
 From GV.Model Require Import Ast Spec.
-From GV.Model Require Import Lex ValueParse QueryParse OpParse.
+From GV.Model Require Import Lex ValueParse QueryParse OpParse ClauseParse.
 From GV.Proofs Require Import LexProps ValueParseProps ValueSpellProps ValueSpellExample.
-From GV.Proofs Require Import QueryParseProps QuerySpellProps QuerySpellExample ThisProps OpParseProps.
+From GV.Proofs Require Import QueryParseProps QuerySpellProps QuerySpellExample ThisProps OpParseProps ClauseParseProps.
 
 Theorem C14_keyword_tables_are_the_documented_ones :
   set_eqb kw_in_keyword ["in"; "IN"] = true /\ set_eqb kw_keys ["keys"; "KEYS"] = true /\
@@ -197,3 +197,17 @@ Print Assumptions C14_operator_parser_consumes.
 Theorem C14_message_opener_is_not_an_operator : forall s, value_cmp ("<<" +++ s) = PErr.
 Proof. exact message_opener_is_not_an_operator. Qed.
 Print Assumptions C14_message_opener_is_not_an_operator.
+
+(* ---- one access clause (Model/ClauseParse.v = parser.rs clause_with_map) ---- *)
+
+Theorem C14_layout_before_a_clause_is_irrelevant : forall rv n w s, layout w -> clause rv n (w +++ s) = clause rv n s.
+Proof. exact clause_layout_irrelevant. Qed.
+Print Assumptions C14_layout_before_a_clause_is_irrelevant.
+
+Theorem C14_clause_parser_answers : forall rv s, clause_top rv s <> POof.
+Proof. exact clause_answers. Qed.
+Print Assumptions C14_clause_parser_answers.
+
+Theorem C14_clause_parser_consumes : forall rv n s c rest, clause rv n s = POk c rest -> (String.length rest < String.length s)%nat.
+Proof. exact clause_consumes. Qed.
+Print Assumptions C14_clause_parser_consumes.
